@@ -467,38 +467,58 @@ def well_formed_drop(items, i):
     return rest
 
 
+def item_key_of(it):
+    if it[0] == "clause": return (it[1][1], len(it[1][2])) if it[1][0] == "cmp" else (it[1][1], 0)
+    if it[0] == "decl": return it[2]
+    return None
+
+
 def minimise_panic(prop, sc, api, naming):
+    """greedy reduction of a panicking history: drop whole predicates, steps, then single items (texts stay well formed)"""
     cur = dict(sc)
+    base = os.path.join(FILES, "minp%d" % os.getpid())
     def panicking(cands):
         jobs = []
         for cid, c in cands:
+            c["paths"] = {w: "%s_%s_%s.pl" % (base, cid, w) for w in ("S", "O")}
             for w in ("S", "O"): open(c["paths"][w], "w").write(text_of(c[w]))
             j, _ = make_job(c, api, naming, observe=False)
             j["id"] = cid; jobs.append(j)
-        # file contents differ per candidate: run the candidates one process at a time when files are read
-        out = {}
-        if api == "file":
-            for (cid, c), j in zip(cands, jobs):
-                for w in ("S", "O"): open(c["paths"][w], "w").write(text_of(c[w]))
-                out.update(core.vrun_query(prop, [j], nproc=1, tag="minp"))
-        else:
-            out = core.vrun_query(prop, jobs, tag="minp")
+        out = core.vrun_query(prop, jobs, tag="minp")
         return {cid: ("crash" in out.get(cid, {"crash": 1}) or "panic" in json.dumps(out[cid].get("results"))) for cid, _ in cands}
-    for rnd in range(30):
-        cands = []
+    def apply(c0, rem):
+        c = dict(c0)
+        for w in ("S", "O"): c[w] = [it for i, it in enumerate(c0[w]) if (w, i) not in rem]
+        c["steps"] = [st for i, st in enumerate(c0["steps"]) if ("T", i) not in rem]
+        return c
+    def well_formed(c0, c):
         for w in ("S", "O"):
-            for i in range(len(cur[w])):
-                d = well_formed_drop(cur[w], i)
-                if d is not None:
-                    c = dict(cur); c[w] = d; cands.append(("%s%d" % (w, i), c))
-        for i in range(len(cur["steps"])):
-            c = dict(cur); c["steps"] = cur["steps"][:i] + cur["steps"][i + 1:]; cands.append(("T%d" % i, c))
-        if not cands: break
-        r = panicking(cands)
-        nxt = next((c for cid, c in cands if r[cid]), None)
-        if nxt is None: break
-        cur = nxt
-    for w in ("S", "O"): open(sc["paths"][w], "w").write(text_of(sc[w]))
+            for k in {item_key_of(it) for it in c[w] if it[0] == "clause"}:
+                if [it for it in c[w] if it[0] == "decl" and it[2] == k] != [it for it in c0[w] if it[0] == "decl" and it[2] == k]: return False
+        return True
+    for rnd in range(12):
+        rems = []
+        keys = []
+        for it in cur["S"] + cur["O"]:
+            k = item_key_of(it)
+            if k and k not in keys: keys.append(k)
+        if len(keys) > 1:
+            for k in keys:
+                rems.append({(w, i) for w in ("S", "O") for i, it in enumerate(cur[w]) if item_key_of(it) == k})
+        rems += [{("T", i)} for i in range(len(cur["steps"]))]
+        rems += [{(w, i)} for w in ("S", "O") for i in range(len(cur[w]))]
+        cands = [("c%d" % n, apply(cur, r)) for n, r in enumerate(rems)]
+        ok = [(n, c) for n, (cid, c) in enumerate(cands) if well_formed(cur, c)]
+        if not ok: break
+        r = panicking([cands[n] for n, _ in ok])
+        good = [n for n, _ in ok if r["c%d" % n]]
+        if not good: break
+        union = set().union(*[rems[n] for n in good])
+        cu = apply(cur, union)
+        if len(good) > 1 and well_formed(cur, cu) and panicking([("u", cu)])["u"]:
+            cur = cu
+        else:
+            cur = cands[good[0]][1]
     return cur
 
 
@@ -618,7 +638,7 @@ def run(ctx):
     for _, t in errs:
         tie_breaks.append({"kind": "coq-eval", "what": "model evaluation shard failed", "detail": t})
     # where does each disagreeing trace first differ from the model?  (one coqc run for all of them)
-    bad = sorted(bad, key=lambda j: (len(binfo[j][0]["S"]) + len(binfo[j][0]["O"]), len(binfo[j][0]["steps"])))[:30]
+    bad = sorted(bad, key=lambda j: (len(binfo[j][0]["S"]) + len(binfo[j][0]["O"]), len(binfo[j][0]["steps"])))[:20]
     dist["traces_differing_from_model"] = len(bad)
     t_cls = time.time()
     if bad:
@@ -645,7 +665,7 @@ def run(ctx):
         for n_shown, (feat, lst) in enumerate(sorted(by_key.items())):
             j, st, where = lst[0]
             sc, api, naming, inp, obs = binfo[j]
-            spec = core.coq_eval_show(ctx.prop, IMPORTS, coq_case(sc, naming, obs, "trace")) if n_shown < 3 else "(model trace not printed)"
+            spec = core.coq_eval_show(ctx.prop, IMPORTS, coq_case(sc, naming, obs, "trace")) if n_shown < 2 else "(model trace not printed)"
             failures.append({"key": "reload:answers-differ-from-model:" + feat,
                              "what": "after step %s of the history (counting from 0) the answers of %s differ from the loader model's (%d such traces in this run)" % (st, where, len(lst)),
                              "input": inp + "; queries=" + obs_query(sc), "impl": " | ".join(obs)[:1500], "spec": spec[:1500], "property_fails": True})
